@@ -38,7 +38,8 @@ CONFIG = {
              "tree's taxa), DataSet (add, read newick/nexus with "
              "TAXA/CHARACTERS/TREES blocks, new_tree_list, new_char_matrix, attach/detach, unify_taxon_namespaces) and "
              "CharacterMatrix (new_sequence, [key]=, migrate/reconstruct, add/replace/update/extend_sequences, "
-             "extend_matrix, copy constructor into a foreign namespace) plus loose-tree migrate/clone; all objects use "
+             "extend_matrix, copy constructor into a foreign namespace) plus loose-tree migrate/clone and relabelling of member "
+             "taxa (taxon.label = unused label / case variant of its own / label of another member); all objects use "
              "labels from the pool a,A,b,B,c,'x y','x_y',Straße,STRAßE,éa,Éa,ﬁn,ος under 3 shared pool namespaces (case-insensitive, "
              "case-sensitive, case-insensitive) or fresh ones, with optional duplicate-label taxa. After every step the "
              "full record model is compared (namespace identity, membership, per-slot label preservation under the "
@@ -176,6 +177,7 @@ RULES = {
     "cm_clone": fd(m=I, ns=NSSEL),
     "tree_migrate": fd(t=I, ns=NSSEL, unify=st.sampled_from([True, True, False])),
     "tree_clone": fd(t=I, ns=NSSEL),
+    "rename_taxon": fd(n=I, k=I, l=LBL, mode=st.integers(0, 2)),
 }
 
 INIT = fd(tl_cs=B, cm_cs=B, cm_shares=B, dtype=st.sampled_from(["dna", "standard"]), ds_attached=st.sampled_from([0, 1, 2]),
@@ -264,6 +266,7 @@ class Interp(object):
         self.seqno = 0
         self.nss = {}
         self.nt_events = 0
+        self.renamed = 0
         self.trace = [["init", init]]
         self.dtype = init["dtype"]
         self.mtype = dendropy.DnaCharacterMatrix if self.dtype == "dna" else dendropy.StandardCharacterMatrix
@@ -504,6 +507,8 @@ class Interp(object):
                 n, n.label, [t.label for t in after]))
             live.append((o, l, n))
         used_fresh = set(id(n) for _, _, n in live if id(n) not in pre_ids)
+        if mode in ("unify", "nounify") and live and self.renamed:
+            self.ctx.cls("label_matching_op_after_a_rename")
         if mode in ("identity", "add"):
             for o, l, n in live:
                 V(n is o, "taxon_replaced_where_kept_expected",
@@ -1864,6 +1869,39 @@ class Interp(object):
         else:
             self.check_mapping(pairs, X, pre, "unify", universe=self.universe_of(self.nrec(T.ns).taxa), allow_extra=True)
         self.add_loose(TRec(t, X, new, self.stepno))
+
+
+    # -- taxon relabelling ---------------------------------------------------------------------------------------
+    def op_rename_taxon(self, a):
+        """`taxon.label = new` on a member of a tracked namespace.  Nothing else may change (check_all); every later
+        label-matching operation must go by the CURRENT labels - the model reads labels from the Taxon objects, so a
+        renamed taxon is simply a member with that label (if another member already has it, the namespace holds two
+        taxa with one label, the same documented state as after 'add' / unify off)."""
+        recs = [r for r in self.nss.values() if len(r.taxa)]
+        if not recs:
+            return self.skip("empty")
+        r = recs[a["n"] % len(recs)]
+        t = r.taxa[a["k"] % len(r.taxa)]
+        old = t.label
+        K = keyfn(r.ns)
+        mode = a["mode"]
+        new = None
+        if mode == 1:
+            alts = [x for x in POOL if x != old and x.lower() == str(old).lower()]
+            new = alts[a["l"] % len(alts)] if alts else str(old).swapcase()
+        elif mode == 2:
+            others = [x.label for x in r.taxa if x is not t and K(x.label) != K(old)]
+            if others:
+                new = others[a["l"] % len(others)]
+        if new is None:
+            new = POOL[a["l"]]
+            mode = 0
+        used = any(x is not t and K(x.label) == K(new) for x in r.taxa)
+        t.label = new
+        self.V(t.label == new, "rename_label_not_stored")
+        kind = "unchanged" if new == old else "case_variant_of_own" if K(new) == K(old) else "label_of_other_member" if used else "unused_label"
+        self.ctx.cls("rename:%s:%s" % (kind, "case_sensitive_ns" if r.ns.is_case_sensitive else "case_insensitive_ns"))
+        self.renamed = self.renamed + (new != old)
 
 
 SUBCHECKS = {"machine": stateful.replay(Interp)}
